@@ -210,7 +210,19 @@ ADDENDA3 = {'C01': 'Seventh batch: the gate hands out the table entry of exactly
     'C18': 'Seventh batch: generate_cek / generate_iv take no size from their caller.',
     'C19': 'Seventh batch: json.loads of the codec has no hooks and JSON is parsed in one place; to_bytes encodes with (charset, errors).',
     'C20': 'Seventh batch: shared classes are closed over objects kept in fields of shared objects or at module level.'}
-ENGINE_NOTE = ' Engine: calls to functions that are not in the reference function list (new helpers, extracted or introduced) are inlined exactly before any rule runs (jv/inline.py).'
+ADDENDA4 = {
+    'C03': 'Eighth round: named JSON members are filled from (and guarded by) the value of the same name (member crossing, JWS functions); borrowed generic clauses look at JWS and shared code only.',
+    'C04': 'Eighth round: a member the JSON reader subscripts on every path is written on every path (R04.16); crossed-names clause of the routing rule; member crossing (R04.17); no refusal on the emptiness of the ciphertext / encrypted key in the readers (R04.18); borrowed generic clauses look at JWE and shared code only.',
+    'C08': 'Eighth round: the JWE readers read an empty ciphertext / encrypted key of a foreign token (R08.15 = R04.18); the borrowed model-state clause looks at JWE models only.',
+    'C11': 'Eighth round: validate_dict_key_registry is decided by partial evaluation on probe registries / JWKs (required -> raise, present -> validated whatever the value) when every branch test was decided both ways, by shape otherwise; member crossing in shared code (R11.20).',
+    'C12': 'Eighth round: CryptographyBinding.as_bytes is decided per path (call views): on every path the (native key, flag) pair handed to dump_pem_key agrees with the request - three returns or one selection followed by one call.',
+    'C13': 'Eighth round: the thumbprint field selection and the thumbprint computation are decided by partial evaluation with intercepted callees on probe JWKs (two-sidedness condition, DESIGN 11.11), by shape otherwise.',
+    'C14': 'Eighth round: get_by_kid and pick_random_key are decided by partial evaluation on probe key sets (two-sidedness condition), by path rule / shape otherwise; the object handed to guess_key has a headers() method according to the type checker.',
+    'C15': 'Eighth round: the registry constructors, the registries handed to the shared checks by check_header, and the value validators are decided by partial evaluation on probes (two-sidedness condition), by shape otherwise.',
+    'C16': 'Eighth round: the list-of-str validator that guards the crit loop is recognised by partial evaluation on the probe battery.',
+    'C20': 'Eighth round: local aliases are followed flow-sensitively (`r = self.table; if c: r = r.copy(); r.update(x)` writes the copy only).',
+}
+ENGINE_NOTE = ' Engine: calls to functions that are not in the reference function list (new helpers, extracted or introduced) are inlined exactly before any rule runs (jv/inline.py); sentinel threading, constant sinking and type-dead None-test pruning (canon C24-C26) normalise what inlining leaves behind.'
 
 ADDENDA2 = {'C01': 'Later additions: per-instance containers on the message classes; the signature handed to the primitive is the received octet string itself; the header tables as the crit defence; PSS / PKCS1 primitive call table and consuming-side key selection (no kid written into a received header) as clauses. Generic routing rule: between functions that share a parameter name the property speaks about, the value is handed on as given (frozen exception table) and the parameter is not re-bound except by to_bytes / to_str of itself.',
     'C02': 'Later additions: 1PU / ES shared-secret terms, key-wrap primitive shapes, whole-key dir, and zip honoured from the protected position only, as clauses. Generic routing rule: between functions that share a parameter name the property speaks about, the value is handed on as given (frozen exception table) and the parameter is not re-bound except by to_bytes / to_str of itself.',
@@ -275,7 +287,7 @@ def main() -> None:
                 "evidence_file": f"/verif/evidence/{pid}.json",
                 "replay_cmd_template": f"{PY} -m jv replay {{path}}",
                 "engine": "jv",
-                "level_claimed": {"category": "other", "text": text + (" " + ADDENDA[pid] if pid in ADDENDA else "") + (" " + ADDENDA2[pid] if pid in ADDENDA2 else "") + (" " + ADDENDA3[pid] if pid in ADDENDA3 else "") + ENGINE_NOTE, "design_ref": f"DESIGN.md section {ref} and 11.2"},
+                "level_claimed": {"category": "other", "text": text + (" " + ADDENDA[pid] if pid in ADDENDA else "") + (" " + ADDENDA2[pid] if pid in ADDENDA2 else "") + (" " + ADDENDA3[pid] if pid in ADDENDA3 else "") + (" " + ADDENDA4[pid] if pid in ADDENDA4 else "") + ENGINE_NOTE, "design_ref": f"DESIGN.md section {ref} and 11.2"},
                 "level_note": note,
                 "technique": tech,
             })
